@@ -159,6 +159,18 @@ def check_tissue(res, spec, exprs, label):
     exprs.append((e, replay))
 
 
+def resampled(spec, ne, flag=False):
+    """the mesh after generate_mesh, as a new spec (input meshes 'after resampling')"""
+    v, e, c = impl.build(spec)
+    try:
+        with impl.quiet():
+            v2, e2, c2, _ = impl.ve.generate_mesh(v, e, c, ne=ne, replace_short_edges=flag)
+    except Exception:
+        return None
+    return {"vertices": [[k, w.x, w.y] for k, w in v2.items()], "edges": [[k, x.v1.id, x.v2.id] for k, x in e2.items()],
+            "cells": [[k, [w.id for w in x.vertices]] for k, x in c2.items()], "meta": {"resampled": ne}}
+
+
 def tissues(rng, tier):
     n = 10 if tier == "quick" else 120
     for k in range(n):
@@ -194,6 +206,11 @@ def run(res, tier, seed):
             if rng.random() < 0.5:
                 sub = gen.relabel(sub, rng, flip=0.3)
             check_tissue(res, sub, exprs, f"{label}/sub{len(s)}")
+            if rng.random() < 0.5:
+                rs = resampled(sub, int(rng.integers(1, 7)))
+                if rs is not None and rs["cells"]:
+                    check_tissue(res, rs, exprs, f"{label}/sub{len(s)}/resampled")
+                    res.count("resampled-input-meshes")
     bools, outs = C.coq_eval_bools("C08", IMPORTS, [e for e, _ in exprs], chunk=20)
     for (e, rp), b in zip(exprs, bools):
         res.traces += 1
